@@ -230,7 +230,30 @@ def rule_declaration_merge(ctx, rep, config="c-lib"):
     rep.cover(p, [f.name])
     expr.NAMED[0] = True
     try:
-        copies = [i for i in f.calls() if (i.callee or "").startswith("llvm.memcpy") and "sterms" in repr(expr.lin(f, i.args[0], 0, 2))]
+        def _sterm_ptr(op):
+            i_ = f.inst(op)
+            k_ = 0
+            while i_ is not None and i_.op == "bitcast" and k_ < 3:
+                src = i_.ops[0]
+                si = f.inst(src)
+                ty = (si.ty if si is not None else (f.args[src["v"]].get("ty") if src.get("k") == "a" else "")) or ""
+                if "sterm" in ty:
+                    return True
+                i_ = si
+                k_ += 1
+            return False
+
+        def _code_controlled(i_):
+            for (c_, _) in _controlling_conditions(f, i_.block.name):
+                for o_ in c_.ops:
+                    l_ = f.inst(strip_int_casts(f, o_))
+                    if l_ is not None and l_.op == "load" and resolve_addr(f, l_.ops[0]).last_field() == "sterm.code":
+                        return True
+            return False
+        allcp = [i for i in f.calls() if (i.callee or "").startswith("llvm.memcpy") and const_int(i.args[2]) is not None and _sterm_ptr(i.args[0]) and _sterm_ptr(i.args[1])]
+        # the copy that keeps an element is decided by the names only; a copy decided by the codes is a merge
+        copies = [i for i in allcp if not _code_controlled(i)]
+        whole = [i for i in allcp if _code_controlled(i)]
         merges = []
         for s_ in f.all_insts():
             if s_.op != "store" or resolve_addr(f, s_.ops[1]).last_field() != "sterm.code":
@@ -238,8 +261,6 @@ def rule_declaration_merge(ctx, rep, config="c-lib"):
             v = f.inst(strip_int_casts(f, s_.ops[0]))
             if v is not None and v.op == "load" and resolve_addr(f, v.ops[0]).last_field() == "sterm.code":
                 merges.append((s_, v))
-        whole = [i for i in f.calls() if (i.callee or "").startswith("llvm.memcpy") and i not in copies and copies
-                 and const_int(i.args[2]) is not None and const_int(i.args[2]) == const_int(copies[0].args[2])]
         if len(copies) == 1 and not merges and len(whole) == 1:
             rep.violation("C11-merge", "set_sgrammar/merge-touches-code-only", "a repeated declaration is merged by copying the whole element over the kept one: the kept "
                           "declaration also loses its order number (the position of the first declaration), so terminals without explicit codes get their implicit "
@@ -265,7 +286,9 @@ def rule_declaration_merge(ctx, rep, config="c-lib"):
             if x.op == "phi":
                 for (val, pb) in x.d["incoming"]:
                     xi = f.inst(strip_casts(f, val))
-                    if xi is not None and xi.op == "phi":
+                    if xi is not None and xi.op == "phi" and expr.lin(f, val, 0, 2) == dst:
+                        srcs.append((val, pb))       # the running destination pointer itself
+                    elif xi is not None and xi.op == "phi":
                         work.append(xi)
                     elif val.get("k") != "null":
                         srcs.append((val, pb))
@@ -334,6 +357,22 @@ def rule_lexer_discipline(ctx, rep, config="c-lib"):
                 v = lin(f, s_.ops[0], 0, 2)
                 if any("yaep_yylval" in a for a in v.t):
                     forms.append((s_, v))
+        # the value accumulated in a local and stored once:  val = phi(first digit, k * val + digit - '0')
+        for L in f.loops():
+            for ph in f.bmap[L["header"]].insts:
+                if ph.op != "phi" or not ph.ty.startswith("i"):
+                    continue
+                stored = any(u.op == "store" and resolve_addr(f, u.ops[1]).root == ("g", "yaep_yylval") for u in f.uses().get(ph.id, []))
+                stored = stored or any(u.op in ("sext", "zext", "trunc") and any(w.op == "store" and resolve_addr(f, w.ops[1]).root == ("g", "yaep_yylval")
+                                                                                   for w in f.uses().get(u.id, [])) for u in f.uses().get(ph.id, []))
+                if not stored:
+                    continue
+                for (v_, pb) in ph.d["incoming"]:
+                    if pb not in L["body"]:
+                        continue
+                    v = lin(f, v_, 0, 0)
+                    if len(v.t) == 2:
+                        forms.append((ph, v))
         bad = [(s_, v) for (s_, v) in forms if not (v.c == -48 and sorted(v.t.values()) == [1, 10])]
     finally:
         expr.NAMED[0] = False
